@@ -1,6 +1,7 @@
 package main
 
 import (
+	"sync"
 	"sort"
 	"context"
 	"fmt"
@@ -542,6 +543,50 @@ func (fx *Fx) provable(st *State, goal *Term) bool {
 		os.WriteFile("/tmp/gvc_provable.smt2", []byte(txt), 0o644)
 	}
 	return st2 == "unsat"
+}
+
+// provableMany: provable for several goals on the same state; the solver processes run concurrently.
+func (fx *Fx) provableMany(st *State, goals []*Term) []bool {
+	res := make([]bool, len(goals))
+	texts := make([]string, len(goals))
+	var uses []string
+	if fx.C != nil {
+		uses = fx.C.Uses
+	}
+	for i, g := range goals {
+		switch {
+		case g == nil || g.IsFalse():
+		case g.IsTrue():
+			res[i] = true
+		default:
+			ob := &Obligation{Name: "query", Assume: fx.Assume[:len(fx.Assume):len(fx.Assume)], PC: st.PC, Goal: g, Fx: fx}
+			texts[i] = fx.P.smtText(ob, uses) + "(check-sat)\n"
+		}
+	}
+	sem := make(chan struct{}, 16)
+	var wg sync.WaitGroup
+	for i := range goals {
+		if texts[i] == "" {
+			continue
+		}
+		wg.Add(1)
+		go func(i int) {
+			defer wg.Done()
+			sem <- struct{}{}
+			defer func() { <-sem }()
+			f, err := os.CreateTemp("", "gvc-q-*.smt2")
+			if err != nil {
+				return
+			}
+			defer os.Remove(f.Name())
+			f.WriteString(texts[i])
+			f.Close()
+			st2, _ := runSolver(context.Background(), solvers[0], f.Name(), 5)
+			res[i] = st2 == "unsat"
+		}(i)
+	}
+	wg.Wait()
+	return res
 }
 
 // abstractStoredValues replaces every value written into a heap/row store chain by a fresh symbol:
